@@ -183,10 +183,18 @@ fn case(t: &mut Tape, info: &mut CaseInfo) -> Result<(), String> {
         Err(_) => return Err("Performance::try_mode refused a possible conversion".into()),
     };
     let r_try = score.apply(via_try.difficulty(d.clone())).calculate();
+    // the same through a calculator that owns its map (eager in-place conversion)
+    let r_try_owned = match Performance::new(map.clone()).mods(mods.clone()).try_mode(target) {
+        Ok(p) => score.apply(p.difficulty(d.clone())).calculate(),
+        Err(_) => return Err("Performance::try_mode refused a possible conversion (owned map)".into()),
+    };
+    let r_ignore_owned = score.apply(Performance::new(map.clone()).mods(mods.clone()).mode_or_ignore(target).difficulty(d.clone())).calculate();
     let r_ignore = score.apply(Performance::new(&map).mods(mods.clone()).mode_or_ignore(target).difficulty(d.clone())).calculate();
     let r_explicit = score.apply(Performance::new(&explicit).difficulty(d.clone())).calculate();
     let r_mode = score.apply(perf_for_mode(&map, target).difficulty(d.clone())).calculate();
     same("try_mode vs explicit", &r_try, &r_explicit)?;
+    same("try_mode on an owned map vs explicit", &r_try_owned, &r_explicit)?;
+    same("mode_or_ignore on an owned map vs explicit", &r_ignore_owned, &r_explicit)?;
     same("mode_or_ignore vs explicit", &r_ignore, &r_explicit)?;
     same("<Mode>Performance::new(&src) vs explicit", &r_mode, &r_explicit)?;
     info.comparisons += 3;
